@@ -196,6 +196,27 @@ def check(repo: Repo, rep: Report) -> None:
                         rep.ob("P5-cancel-unconditional", g, f"AsyncIOScheduler.{mname}.{g.name}: {short(x.node)}", not x.ctx.guards and not x.ctx.handlers,
                                f"`{short(x.node)}` is conditional ({[u(e) for e, _ in x.ctx.guards]}): for some state of the timer dispose() returns "
                                f"without having cancelled it, and the action still starts afterwards")
+    # every handle the two-stage registration records is cancelled by dispose: as many `handle.pop().cancel()` as `handle.append(...)`
+    rep.rule("P6-all-handles-cancelled", "AsyncIOThreadSafeScheduler.schedule_relative: dispose cancels every handle the registration recorded", floor=1)
+    msr = repo.fn(TS, "AsyncIOThreadSafeScheduler.schedule_relative")
+    lists_ = locals_by_init(msr, lambda v: isinstance(v, ast.List) and not v.elts) if "locals_by_init" in globals() else []
+    apps_, cans_ = {}, {}
+    for g in msr.walk():
+        if not g.is_func:
+            continue
+        for x in sites(g):
+            n_ = x.node
+            if isinstance(n_, ast.Call) and isinstance(n_.func, ast.Attribute) and n_.func.attr == "append" and isinstance(n_.func.value, ast.Name):
+                apps_[n_.func.value.id] = apps_.get(n_.func.value.id, 0) + 1
+            if isinstance(n_, ast.Call) and isinstance(n_.func, ast.Attribute) and n_.func.attr == "cancel" and isinstance(n_.func.value, ast.Call) \
+                    and isinstance(n_.func.value.func, ast.Attribute) and n_.func.value.func.attr == "pop" and isinstance(n_.func.value.func.value, ast.Name):
+                cans_[n_.func.value.func.value.id] = cans_.get(n_.func.value.func.value.id, 0) + 1
+            if isinstance(n_, ast.For) and isinstance(n_.iter, ast.Name) and any(isinstance(c, ast.Call) and isinstance(c.func, ast.Attribute) and c.func.attr == "cancel" for c in ast.walk(n_)):
+                cans_[n_.iter.id] = 10 ** 6
+    hl = [k for k in apps_ if k in cans_]
+    rep.ob("P6-all-handles-cancelled", msr, f"handles recorded {apps_} / cancelled {cans_}", bool(hl) and all(cans_[k] >= apps_[k] for k in hl),
+           "dispose() cancels fewer handles than the two-stage registration records: the first-stage handle (or the armed timer) survives "
+           "dispose() and the action starts after dispose() has returned")
     # P4 -----------------------------------------------------------------
     for rel, cname in ((TS, "AsyncIOThreadSafeScheduler"), (AS, "AsyncIOScheduler")):
         for mname in ("schedule", "schedule_relative"):
